@@ -316,7 +316,19 @@ def main():
             by_unit.setdefault(rec.get("unit"), rec)
         ufuncs = dict(verify.UNITS.get(prop, []))
         for uname, rec in by_unit.items():
-            cands = [(pat, fn) for pat, fn in getattr(mod, "STANDIN", {}).items() if re.search(pat, f"{uname} {rec['name']}")]
+            und_names = [r["name"] for r in undecided if r.get("unit") == uname]          # every undecided obligation of the unit
+            cands = [(pat, fn) for pat, fn in getattr(mod, "STANDIN", {}).items() if any(re.search(pat, f"{uname} {nm}") for nm in und_names)]
+            # units shared from another property's module bring that module's stand-ins with them (matched on the obligation's own name)
+            for k_ in range(1, 21):              # (units imported lazily by a worker process are not loaded in this process yet)
+                try:
+                    importlib.import_module(f"contracts.C{k_:02d}")
+                except Exception:
+                    pass
+            for mname, m2 in list(sys.modules.items()):
+                if mname.startswith("contracts.") and m2 is not mod:
+                    for pat, fn in (getattr(m2, "STANDIN", {}) or {}).items():
+                        if any(re.search(pat, nm.split(".", 1)[-1]) for nm in und_names) and all(fn is not c[1] for c in cands):
+                            cands.append((pat, fn))
             f = ufuncs.get(uname)
             if f is not None:
                 for nm in f.__code__.co_names:
@@ -325,7 +337,7 @@ def main():
                         g = getattr(f, "__globals__", {}).get(nm)      # a unit shared from another property's module
                     if "REPLAY" in nm and callable(g) and all(g is not c[1] for c in cands):
                         cands.append((nm, g))
-            for j, (tag, fn) in enumerate(cands[:4]):
+            for j, (tag, fn) in enumerate(cands[:6]):
                 try:
                     sc = fn({})
                 except Exception:
